@@ -3012,6 +3012,12 @@ impl HnswBackend {
                 .collect();
         }
 
+        // The filter cannot be compiled to a bitmap (e.g. a NOT without an inner filter): fall back
+        // to a full scan. `scan` takes `doc_store.read()` itself; taking it again while still
+        // holding the guards above deadlocks as soon as a writer queues on `doc_store` in between
+        // (parking_lot read locks are not re-entrant once a writer waits).
+        drop(meta_index);
+        drop(store);
         self.scan(|meta| metadata_filter::matches(filter, meta))
     }
 
